@@ -466,11 +466,44 @@ impl EvalResult {
     /// In SPARQL, the order is partial,
     /// while this function falls back to the total order defined by [`Term::cmp`].
     pub fn sparql_order_by(&self, other: &Option<Self>) -> Ordering {
-        if let Some(val) = other {
-            self.sparql_cmp(val)
-                .unwrap_or_else(|| Term::cmp(&self.as_term(), val.as_term()))
-        } else {
-            Ordering::Greater
+        let Some(val) = other else {
+            return Ordering::Greater;
+        };
+        // Values are first ranked by "order class", so that the relation is a total preorder:
+        // comparing with `sparql_cmp` when possible and falling back to `Term::cmp` otherwise
+        // is not transitive (e.g. 5 < "7"^^xsd:byte < a dateTime < 5).
+        // All the values that SPARQL's `<` can compare belong to the same class.
+        self.order_class()
+            .cmp(&val.order_class())
+            .then_with(|| match (self.as_xsd_date_time(), val.as_xsd_date_time()) {
+                // dateTimes with and without timezone are not always comparable;
+                // for ORDER BY, dateTimes without timezone are considered to be UTC
+                (Some(d1), Some(d2)) => d1.utc_instant().cmp(&d2.utc_instant()),
+                _ => self
+                    .sparql_cmp(val)
+                    .unwrap_or_else(|| Term::cmp(&self.as_term(), val.as_term())),
+            })
+    }
+
+    /// The class of this value for ORDER BY:
+    /// blank nodes < IRIs < numbers < NaN < strings < language strings < booleans < dateTimes
+    /// < other literals < quoted triples.
+    fn order_class(&self) -> u8 {
+        match self.as_value() {
+            Some(SparqlValue::Number(SparqlNumber::Float(f))) if f.is_nan() => 3,
+            Some(SparqlValue::Number(SparqlNumber::Double(d))) if d.is_nan() => 3,
+            Some(SparqlValue::Number(_)) => 2,
+            Some(SparqlValue::String(_, None)) => 4,
+            Some(SparqlValue::String(_, Some(_))) => 5,
+            Some(SparqlValue::Boolean(Some(_))) => 6,
+            Some(SparqlValue::DateTime(Some(_))) => 7,
+            _ => match self.as_term().kind() {
+                sophia_api::term::TermKind::BlankNode => 0,
+                sophia_api::term::TermKind::Iri => 1,
+                sophia_api::term::TermKind::Literal => 8,
+                sophia_api::term::TermKind::Triple => 9,
+                sophia_api::term::TermKind::Variable => 10,
+            },
         }
     }
 }
